@@ -1,12 +1,22 @@
 import BeyondVerif.Lemmas.Tle
 import BeyondVerif.Lemmas.TleWrite
+import BeyondVerif.Lemmas.TleRead
 
 /-!
 # C12 — TLE text round-trips and is validated
 
 Property theorems about the model `Model/Tle.lean` of `beyond/io/tle.py` (column slices, checksum constants and the
 writer's field layout regenerated from the source into `Generated/TleColumns.lean` on every run; the model is tied
-to the code by an exact differential correspondence run).
+to the code by an exact differential correspondence run). The model follows the repaired code (1de1dcf, 7d01f12,
+900dafc, f1c2a4f, be00355).
+
+* clause 3 (validation): `checksum_detects_digit_error`, `valid_iff`, `too_few_lines_rejected`, `length_checked`,
+  `line_number_checked`, `digit_corruption_rejected`
+* clause 1 (epoch): `epoch_roundtrip`
+* drag terms: `unfloat_float_id`, `unfloat_float_zero`, `float_unfloat_id`
+* clause 2: `written_lines_valid`, `parse_write_id`  (∀ records in `InRange`, `Lemmas/TleWrite.lean`)
+* clause 1: `write_parse_id` (∀ canonical texts = texts written from a record in range), `reference_tles_roundtrip`
+* clause 4: `from_string_yields_valid_entries` (full strength since 7d01f12), `from_string_framed_exact`
 -/
 namespace BeyondVerif.C12
 open BeyondVerif.Tle
@@ -415,6 +425,365 @@ theorem issRec_inRange : InRange issRec where
   mm := by decide
   revs := by decide
   name := Or.inr ⟨by decide, by decide, by decide⟩
+
+/-! ## Clauses 1 and 2 — write → parse gives the same elements, parse → write the identical lines -/
+
+
+/-- the exact decimal a canonical drag term stands for -/
+def decOfUnfl : Unfl → Dec
+  | .zero => ⟨false, 0, 5⟩
+  | .val neg m5 exp => ⟨neg, m5, 5 - exp⟩
+  | .small neg d => ⟨neg, d, 14⟩
+
+theorem canon_read {u : Unfl} (h : CanonUnfl u) :
+    tleFloat (padLeft ' ' 8 (unfloat u)) = .ok (decOfUnfl u) ∧ toUnfl (decOfUnfl u) = u := by
+  rw [tleFloat_padLeft]
+  rcases h with rfl | ⟨neg, m5, exp, rfl, h1, h2, h3, _⟩
+  · exact unfloat_float_zero
+  · obtain ⟨a, b⟩ := unfloat_float_id neg m5 exp h1 h2
+    exact ⟨a, b h3⟩
+
+/-- the columns of a written first line -/
+theorem line1_slices (r : Rec) (h : InRange r) (tl : Str) :
+    let l := (chunks1 r).flatten ++ tl
+    slice l G.norad = padLeft '0' 5 (intStr r.norad) ∧
+    slice l G.classification = ['U'] ∧
+    slice l G.cosparTest = padRight ' ' 8 r.cospar ∧
+    slice l G.epochYear = fixedDigits 2 r.yy ∧
+    slice l G.epochDay = fmtFix true 12 8 r.day8 ∧
+    slice l G.ndot = padLeft ' ' 10 (fmtNdot r.ndotNeg r.ndot8) ∧
+    slice l G.ndotdot = padLeft ' ' 8 (unfloat r.ndd) ∧
+    slice l G.bstar = padLeft ' ' 8 (unfloat r.bstar) ∧
+    slice l G.etype = ['0'] ∧
+    slice l G.elnb = padLeft ' ' 4 (intStr r.elnb) := by
+  intro l
+  have hl := chunks1_lengths r h
+  simp only [chunks1, List.map_cons, List.map_nil, List.cons.injEq, and_true] at hl
+  obtain ⟨_, h1, _, _, h4, _, h6, h7, _, h9, _, h11, _, h13, _, _, _, h17⟩ := hl
+  refine ⟨?_, ?_, ?_, ?_, ?_, ?_, ?_, ?_, ?_, ?_⟩
+  · exact slice_chunk [['1', ' ']] _ _ tl 2 7 (by simp) (by simp [h1])
+  · exact slice_chunk [['1', ' '], padLeft '0' 5 (intStr r.norad)] ['U'] _ tl 7 8 (by simp [h1]) (by simp)
+  · exact slice_chunk [['1', ' '], padLeft '0' 5 (intStr r.norad), ['U'], [' ']] _ _ tl 9 17 (by simp [h1]) (by simp [h4])
+  · exact slice_chunk [['1', ' '], padLeft '0' 5 (intStr r.norad), ['U'], [' '], padRight ' ' 8 r.cospar, [' ']] _ _ tl 18 20
+      (by simp [h1, h4]) (by simp [h6])
+  · exact slice_chunk [['1', ' '], padLeft '0' 5 (intStr r.norad), ['U'], [' '], padRight ' ' 8 r.cospar, [' '], fixedDigits 2 r.yy] _ _ tl 20 32
+      (by simp [h1, h4, h6]) (by simp [h7])
+  · exact slice_chunk [['1', ' '], padLeft '0' 5 (intStr r.norad), ['U'], [' '], padRight ' ' 8 r.cospar, [' '], fixedDigits 2 r.yy,
+      fmtFix true 12 8 r.day8, [' ']] _ _ tl 33 43 (by simp [h1, h4, h6, h7]) (by simp [h9])
+  · exact slice_chunk [['1', ' '], padLeft '0' 5 (intStr r.norad), ['U'], [' '], padRight ' ' 8 r.cospar, [' '], fixedDigits 2 r.yy,
+      fmtFix true 12 8 r.day8, [' '], padLeft ' ' 10 (fmtNdot r.ndotNeg r.ndot8), [' ']] _ _ tl 44 52 (by simp [h1, h4, h6, h7, h9]) (by simp [h11])
+  · exact slice_chunk [['1', ' '], padLeft '0' 5 (intStr r.norad), ['U'], [' '], padRight ' ' 8 r.cospar, [' '], fixedDigits 2 r.yy,
+      fmtFix true 12 8 r.day8, [' '], padLeft ' ' 10 (fmtNdot r.ndotNeg r.ndot8), [' '], padLeft ' ' 8 (unfloat r.ndd), [' ']] _ _ tl 53 61
+      (by simp [h1, h4, h6, h7, h9, h11]) (by simp [h13])
+  · exact slice_chunk [['1', ' '], padLeft '0' 5 (intStr r.norad), ['U'], [' '], padRight ' ' 8 r.cospar, [' '], fixedDigits 2 r.yy,
+      fmtFix true 12 8 r.day8, [' '], padLeft ' ' 10 (fmtNdot r.ndotNeg r.ndot8), [' '], padLeft ' ' 8 (unfloat r.ndd), [' '],
+      padLeft ' ' 8 (unfloat r.bstar), [' ']] ['0'] _ tl 62 63 (by simp [h1, h4, h6, h7, h9, h11, h13]) (by simp)
+  · exact slice_chunk [['1', ' '], padLeft '0' 5 (intStr r.norad), ['U'], [' '], padRight ' ' 8 r.cospar, [' '], fixedDigits 2 r.yy,
+      fmtFix true 12 8 r.day8, [' '], padLeft ' ' 10 (fmtNdot r.ndotNeg r.ndot8), [' '], padLeft ' ' 8 (unfloat r.ndd), [' '],
+      padLeft ' ' 8 (unfloat r.bstar), [' '], ['0'], [' ']] _ [] tl 64 68 (by simp [h1, h4, h6, h7, h9, h11, h13]) (by simp [h17])
+
+
+theorem padRight_split (a b : Str) (w : Nat) (h : a.length ≤ w) :
+    padRight ' ' w (a ++ b) = a ++ padRight ' ' (w - a.length) b := by
+  unfold padRight
+  rw [List.append_assoc]
+  congr 2
+  simp; omega
+
+theorem line1_cospar_slices (r : Rec) (h : InRange r) (tl : Str) (cy : Nat) (piece : Str)
+    (hc : r.cospar = fixedDigits 2 cy ++ piece) (hp : piece.length ≤ 6) :
+    let l := (chunks1 r).flatten ++ tl
+    slice l G.cosparYear = fixedDigits 2 cy ∧ slice l G.cosparPiece = padRight ' ' 6 piece := by
+  intro l
+  have hl := chunks1_lengths r h
+  simp only [chunks1, List.map_cons, List.map_nil, List.cons.injEq, and_true] at hl
+  obtain ⟨_, h1, _, _, _, _, _, _, _, _, _, _, _, _, _, _, _, _⟩ := hl
+  have hsplit : padRight ' ' 8 r.cospar = fixedDigits 2 cy ++ padRight ' ' 6 piece := by
+    rw [hc, padRight_split _ _ _ (by simp [fixedDigits_length])]; simp [fixedDigits_length]
+  have hp6 : (padRight ' ' 6 piece).length = 6 := padRight_length hp
+  have e : l = ([['1', ' '], padLeft '0' 5 (intStr r.norad), ['U'], [' '], fixedDigits 2 cy, padRight ' ' 6 piece, [' '], fixedDigits 2 r.yy,
+      fmtFix true 12 8 r.day8, [' '], padLeft ' ' 10 (fmtNdot r.ndotNeg r.ndot8), [' '], padLeft ' ' 8 (unfloat r.ndd), [' '],
+      padLeft ' ' 8 (unfloat r.bstar), [' '], ['0'], [' '], padLeft ' ' 4 (intStr r.elnb)] : List Str).flatten ++ tl := by
+    simp [l, chunks1, hsplit]
+  rw [e]
+  constructor
+  · exact slice_chunk [['1', ' '], padLeft '0' 5 (intStr r.norad), ['U'], [' ']] _ _ tl 9 11 (by simp [h1]) (by simp [fixedDigits_length])
+  · exact slice_chunk [['1', ' '], padLeft '0' 5 (intStr r.norad), ['U'], [' '], fixedDigits 2 cy] _ _ tl 11 17
+      (by simp [h1, fixedDigits_length]) (by simp [hp6])
+
+/-- the columns of a written second line -/
+theorem line2_slices (r : Rec) (h : InRange r) (tl : Str) :
+    let l := (chunks2 r).flatten ++ tl
+    slice l G.inc = fmtFix false 8 4 r.inc4 ∧
+    slice l G.raan = fmtFix false 8 4 r.raan4 ∧
+    slice l G.ecc = fixedDigits 7 r.ecc7 ∧
+    slice l G.argp = fmtFix false 8 4 r.argp4 ∧
+    slice l G.ma = fmtFix false 8 4 r.ma4 ∧
+    slice l G.mm = fmtFix false 11 8 r.mm8 ∧
+    slice l G.revs = padLeft ' ' 5 (intStr r.revs) := by
+  intro l
+  have hl := chunks2_lengths r h
+  have hecc : padRight ' ' 0 (fmtEcc r.ecc7) = fixedDigits 7 r.ecc7 := by rw [fmtEcc_eq _ h.ecc]; simp [padRight]
+  simp only [chunks2, List.map_cons, List.map_nil, List.cons.injEq, and_true] at hl
+  obtain ⟨_, h1, _, h3, _, h5, _, h7, _, h9, _, h11, _, h13, h14⟩ := hl
+  have e : l = ([['2', ' '], padLeft '0' 5 (intStr r.norad), [' '], fmtFix false 8 4 r.inc4, [' '], fmtFix false 8 4 r.raan4, [' '],
+      fixedDigits 7 r.ecc7, [' '], fmtFix false 8 4 r.argp4, [' '], fmtFix false 8 4 r.ma4, [' '],
+      fmtFix false 11 8 r.mm8, padLeft ' ' 5 (intStr r.revs)] : List Str).flatten ++ tl := by
+    simp [l, chunks2, hecc]
+  rw [hecc] at h7
+  rw [e]
+  refine ⟨?_, ?_, ?_, ?_, ?_, ?_, ?_⟩
+  · exact slice_chunk [['2', ' '], padLeft '0' 5 (intStr r.norad), [' ']] _ _ tl 8 16 (by simp [h1]) (by simp [h3])
+  · exact slice_chunk [['2', ' '], padLeft '0' 5 (intStr r.norad), [' '], fmtFix false 8 4 r.inc4, [' ']] _ _ tl 17 25 (by simp [h1, h3]) (by simp [h5])
+  · exact slice_chunk [['2', ' '], padLeft '0' 5 (intStr r.norad), [' '], fmtFix false 8 4 r.inc4, [' '], fmtFix false 8 4 r.raan4, [' ']] _ _ tl 26 33
+      (by simp [h1, h3, h5]) (by simp [h7])
+  · exact slice_chunk [['2', ' '], padLeft '0' 5 (intStr r.norad), [' '], fmtFix false 8 4 r.inc4, [' '], fmtFix false 8 4 r.raan4, [' '],
+      fixedDigits 7 r.ecc7, [' ']] _ _ tl 34 42 (by simp [h1, h3, h5, h7]) (by simp [h9])
+  · exact slice_chunk [['2', ' '], padLeft '0' 5 (intStr r.norad), [' '], fmtFix false 8 4 r.inc4, [' '], fmtFix false 8 4 r.raan4, [' '],
+      fixedDigits 7 r.ecc7, [' '], fmtFix false 8 4 r.argp4, [' ']] _ _ tl 43 51 (by simp [h1, h3, h5, h7, h9]) (by simp [h11])
+  · exact slice_chunk [['2', ' '], padLeft '0' 5 (intStr r.norad), [' '], fmtFix false 8 4 r.inc4, [' '], fmtFix false 8 4 r.raan4, [' '],
+      fixedDigits 7 r.ecc7, [' '], fmtFix false 8 4 r.argp4, [' '], fmtFix false 8 4 r.ma4, [' ']] _ _ tl 52 63
+      (by simp [h1, h3, h5, h7, h9, h11]) (by simp [h13])
+  · exact slice_chunk [['2', ' '], padLeft '0' 5 (intStr r.norad), [' '], fmtFix false 8 4 r.inc4, [' '], fmtFix false 8 4 r.raan4, [' '],
+      fixedDigits 7 r.ecc7, [' '], fmtFix false 8 4 r.argp4, [' '], fmtFix false 8 4 r.ma4, [' '], fmtFix false 11 8 r.mm8] _ [] tl 63 68
+      (by simp [h1, h3, h5, h7, h9, h11, h13]) (by simp [h14])
+
+
+/-- the international designator as `Tle.__init__` stores it -/
+def cosparOf (s : Str) : Option (Nat × Str) :=
+  if s.isEmpty then none else some (fullYear ((digitsValAux (s.take 2) 0).getD 0), s.drop 2)
+
+/-- what `Tle.__init__` makes of the written lines of `r` -/
+def expected (r : Rec) (l1 l2 : Str) : Parsed :=
+  { name := [], text := [l1, l2], norad := r.norad, classification := ['U'], cospar := cosparOf r.cospar,
+    year := fullYear r.yy, epochUs := ((r.day8 : Int) - 100000000) * 864, ndot := ⟨r.ndotNeg, r.ndot8, 8⟩,
+    ndd := decOfUnfl r.ndd, bstar := decOfUnfl r.bstar, elnb := r.elnb, revs := r.revs, etype := 0,
+    inc := ⟨false, r.inc4, 4⟩, raan := ⟨false, r.raan4, 4⟩, ecc := ⟨false, r.ecc7, 7⟩, argp := ⟨false, r.argp4, 4⟩,
+    ma := ⟨false, r.ma4, 4⟩, mm := ⟨false, r.mm8, 8⟩ }
+
+theorem century_nat (n : Nat) : century (n : Int) = .ok (fullYear n) := by
+  unfold century fullYear
+  simp [Generated.Tle.pivot]
+
+theorem pyInt_intStr_zero (w : Nat) (i : Int) (h : 0 ≤ i) : pyInt (padLeft '0' w (intStr i)) = .ok i := by
+  rw [intStr_nonneg h, pyInt_padLeft_zero]; congr 1; omega
+
+theorem pyInt_intStr_space (w : Nat) (i : Int) (h : 0 ≤ i) : pyInt (padLeft ' ' w (intStr i)) = .ok i := by
+  rw [intStr_nonneg h, pyInt_padLeft_space]; congr 1; omega
+
+theorem parse_written (r : Rec) (h : InRange r) (c1 c2 : Nat)
+    (hv : checkValidity [(chunks1 r).flatten ++ natStr c1, (chunks2 r).flatten ++ natStr c2] = .ok ())
+    (s1 : strip ((chunks1 r).flatten ++ natStr c1) = (chunks1 r).flatten ++ natStr c1)
+    (s2 : strip ((chunks2 r).flatten ++ natStr c2) = (chunks2 r).flatten ++ natStr c2) :
+    parseBody [(chunks1 r).flatten ++ natStr c1, (chunks2 r).flatten ++ natStr c2] =
+      .ok (expected r ((chunks1 r).flatten ++ natStr c1) ((chunks2 r).flatten ++ natStr c2)) := by
+  obtain ⟨a1, a2, a3, a4, a5, a6, a7, a8, a9, a10⟩ := line1_slices r h (natStr c1)
+  obtain ⟨b1, b2, b3, b4, b5, b6, b7⟩ := line2_slices r h (natStr c2)
+  have f1 := pyInt_intStr_zero 5 r.norad h.norad.1
+  have f4 : pyInt (fixedDigits 2 r.yy) = .ok (r.yy : Int) := by
+    rw [pyInt_fixedDigits 2 r.yy (by omega), Nat.mod_eq_of_lt (by have := h.yy; omega)]
+  have f5 := fmtFix_read true 12 8 r.day8 (by omega)
+  have f6 := ndot_read r.ndotNeg r.ndot8 h.ndot
+  have f7 := (canon_read h.ndd).1
+  have f8 := (canon_read h.bstar).1
+  have f9 : pyInt ['0'] = .ok 0 := by rfl
+  have f10 := pyInt_intStr_space 4 r.elnb h.elnb.1
+  have g1 := fmtFix_read false 8 4 r.inc4 (by omega)
+  have g2 := fmtFix_read false 8 4 r.raan4 (by omega)
+  have g3 : tleFloat (fixedDigits 7 r.ecc7) = .ok ⟨false, r.ecc7, 7⟩ := by
+    rw [ecc_read, Nat.mod_eq_of_lt (by have := h.ecc; omega)]
+  have g4 := fmtFix_read false 8 4 r.argp4 (by omega)
+  have g5 := fmtFix_read false 8 4 r.ma4 (by omega)
+  have g6 := fmtFix_read false 11 8 r.mm8 (by omega)
+  have g7 := pyInt_intStr_space 5 r.revs h.revs.1
+  have hep : epochMicros ⟨false, r.day8, 8⟩ = ((r.day8 : Int) - 100000000) * 864 :=
+    (epoch_roundtrip (fullYear r.yy) r.day8 h.day.1 h.day.2).1
+  -- the international designator
+  have hcos : (if (strip (padRight ' ' 8 r.cospar)).isEmpty = true then (pure none : Except Err (Option (Nat × Str)))
+      else do
+        let y ← pyInt (slice ((chunks1 r).flatten ++ natStr c1) G.cosparYear)
+        let y ← century y
+        pure (some (y, strip (slice ((chunks1 r).flatten ++ natStr c1) G.cosparPiece)))) = .ok (cosparOf r.cospar) := by
+    rcases h.cospar with hc | ⟨cy, piece, hcy, hc, hp, hsp, _⟩
+    · have : strip (padRight ' ' 8 r.cospar) = [] := by rw [hc]; decide
+      simp [this, hc, cosparOf]; rfl
+    · obtain ⟨k1, k2⟩ := line1_cospar_slices r h (natStr c1) cy piece hc hp
+      obtain ⟨c, t, hct, hcd, _⟩ := fixedDigits_ends 2 cy (by omega)
+      have hstrip : strip r.cospar = r.cospar := by
+        rw [hc]
+        rcases List.eq_nil_or_concat piece with hpn | ⟨init, z, hpz⟩
+        · rw [hpn]; simp; exact strip_fixedDigits 2 cy
+        · rw [List.concat_eq_append] at hpz
+          have hz : isWs z = false := ((strip_eq_iff piece).1 hsp).2 z (by rw [hpz]; simp)
+          rw [hct, hpz]
+          have := strip_ends' c z (t ++ init) (isWs_of_isDigit hcd) hz
+          simpa using this
+      have hne : (strip (padRight ' ' 8 r.cospar)).isEmpty = false := by
+        rw [strip_padRight 8 _ hstrip, hc, hct]; rfl
+      rw [k1, k2, hne]
+      simp only [Bool.false_eq_true, if_false]
+      rw [pyInt_fixedDigits 2 cy (by omega), Nat.mod_eq_of_lt (by omega)]
+      simp only [bind, Except.bind, century_nat, pure, Except.pure]
+      rw [strip_padRight 6 piece hsp]
+      have : cosparOf r.cospar = some (fullYear cy, piece) := by
+        unfold cosparOf
+        have hne' : r.cospar.isEmpty = false := by rw [hc, hct]; rfl
+        rw [hne', hc]
+        simp only [Bool.false_eq_true, if_false]
+        rw [List.take_left' (fixedDigits_length 2 cy), List.drop_left' (fixedDigits_length 2 cy), digitsValAux_fixedDigits]
+        simp [Nat.mod_eq_of_lt (show cy < 10 ^ 2 by omega)]
+      rw [this]
+  unfold parseBody
+  rw [hv]
+  simp only [bind, Except.bind, List.map, s1, s2, a1, a2, a3, a4, a5, a6, a7, a8, a9, a10, b1, b2, b3, b4, b5, b6, b7,
+    f1, f4, f5, f6, f7, f8, f9, f10, g1, g2, g3, g4, g5, g6, g7, century_nat]
+  have hcos' := hcos
+  simp only [bind, Except.bind] at hcos'
+  rw [hcos']
+  have hep' : epochMicros { neg := false, mant := r.day8, scale := ((8 : Nat) : Int) } = ((r.day8 : Int) - 100000000) * 864 := hep
+  simp only [pure, Except.pure, expected, hep']
+  rfl
+
+
+theorem natStr_fullYear_drop (cy : Nat) (h : cy < 100) : (natStr (fullYear cy)).drop 2 = fixedDigits 2 cy := by
+  have hn : 1000 ≤ fullYear cy ∧ fullYear cy < 10000 := by unfold fullYear; split <;> omega
+  have hl : (natStr (fullYear cy / 100)).length = 2 := natStr_length_eq 1 _ (by omega) (by omega)
+  rw [natStr_eq (fullYear cy), if_neg (by omega), natStr_eq (fullYear cy / 10), if_neg (by omega)]
+  have e : fullYear cy / 10 / 10 = fullYear cy / 100 := by omega
+  rw [e, List.append_assoc, List.drop_left' hl]
+  have d1 : fullYear cy / 10 % 10 = cy / 10 % 10 := by unfold fullYear; split <;> omega
+  have d2 : fullYear cy % 10 = cy % 10 := by unfold fullYear; split <;> omega
+  simp [fixedDigits, d1, d2]
+
+theorem angle4_grid (v : Nat) (h : v < 3600000) : angle4 ⟨false, v, 4⟩ = .ok v := by
+  unfold angle4 decScaled
+  have e1 : ¬ ((4 : Int) < 0) := by omega
+  have e2 : (4 : Int).toNat = 4 := rfl
+  have e3 : (360 : Int) * 10 ^ 4 = 3600000 := by decide
+  have e4 : ((v : Int) % 3600000).toNat = v := by omega
+  simp [e1, e2, e3, e4]
+
+theorem nonneg_grid (v k : Nat) : nonneg ⟨false, v, k⟩ k = .ok v := by
+  unfold nonneg decScaled
+  simp
+
+theorem decScaled_grid (neg : Bool) (v k : Nat) : (decScaled ⟨neg, v, k⟩ k).natAbs = v := by
+  unfold decScaled
+  cases neg <;> simp
+
+theorem nonneg_grid7 (v : Nat) : nonneg ⟨false, v, 7⟩ 7 = .ok v := by have := nonneg_grid v 7; simpa using this
+theorem nonneg_grid8 (v : Nat) : nonneg ⟨false, v, 8⟩ 8 = .ok v := by have := nonneg_grid v 8; simpa using this
+theorem decScaled_grid8 (neg : Bool) (v : Nat) : (decScaled ⟨neg, v, 8⟩ 8).natAbs = v := by
+  have := decScaled_grid neg v 8; simpa using this
+
+/-- `Tle.orbit()` and the numeric prelude of `from_orbit` give the record back -/
+theorem toRec_expected (r : Rec) (h : InRange r) (l1 l2 : Str) :
+    toRec { expected r l1 l2 with name := r.name } = .ok r := by
+  obtain ⟨_, hny, hday⟩ := epoch_roundtrip (fullYear r.yy) r.day8 h.day.1 h.day.2
+  have hcq : (cosparOf r.cospar = none ∧ r.cospar = []) ∨
+      (∃ cy piece, cy < 100 ∧ cosparOf r.cospar = some (fullYear cy, piece) ∧ r.cospar = fixedDigits 2 cy ++ piece) := by
+    rcases h.cospar with hc | ⟨cy, piece, hcy, hc, _, _, _⟩
+    · left; rw [hc]; exact ⟨rfl, rfl⟩
+    · right
+      obtain ⟨c, t, hct, _, _⟩ := fixedDigits_ends 2 cy (by omega)
+      refine ⟨cy, piece, hcy, ?_, hc⟩
+      unfold cosparOf
+      have hne' : r.cospar.isEmpty = false := by rw [hc, hct]; rfl
+      rw [hne', hc]
+      simp only [Bool.false_eq_true, if_false]
+      rw [List.take_left' (fixedDigits_length 2 cy), List.drop_left' (fixedDigits_length 2 cy), digitsValAux_fixedDigits]
+      simp [Nat.mod_eq_of_lt (show cy < 10 ^ 2 by omega)]
+  have hyy : fullYear r.yy % 100 = r.yy := by have := h.yy; unfold fullYear; split <;> omega
+  have hu1 := (canon_read h.ndd).2
+  have hu2 := (canon_read h.bstar).2
+  unfold toRec
+  simp only [expected, hny, bind, Except.bind, pure, Except.pure, angle4_grid _ h.inc, angle4_grid _ h.raan, angle4_grid _ h.argp,
+    angle4_grid _ h.ma, nonneg_grid7, nonneg_grid8, decScaled_grid8, hu1, hu2, hyy]
+  have hd : (((↑r.day8 - 100000000) * 864 / 86400000000 + 1) * 100000000 +
+      roundDiv ((↑r.day8 - 100000000) * 864 % 86400000000 * 100000000) 86400000000 : Int).toNat = r.day8 := by
+    rw [hday]; simp
+  simp only [hd]
+  rcases hcq with ⟨q1, q2⟩ | ⟨cy, piece, hcy, q1, q2⟩
+  · rw [q1]
+    simp only
+    rw [← q2]
+  · rw [q1]
+    simp only
+    rw [natStr_fullYear_drop cy hcy, ← q2]
+
+
+/-- **any orbit that can be written parses back to the same elements** (and, read the other way, **every numeric
+field is preserved to its printed precision**): for EVERY record `r` inside the ranges of the format — five-digit
+catalogue number, empty or full designator, signed/zero drag and ṅ terms with any one-digit exponent, e in [0,1),
+angles in [0,360), n < 100, element numbers 0–9999, revolution numbers 0–99999, every day of the years 1957–2056,
+with or without name line — `Tle.from_orbit` succeeds, the `Tle` it returns shows exactly the written lines, and
+reading that `Tle` back (`orbit()` followed by the writer's numeric prelude) gives `r` again, field for field. -/
+theorem parse_write_id (r : Rec) (h : InRange r) :
+    ∃ p lines, writeRec r = .ok lines ∧ fromOrbit r = .ok p ∧ parseTle lines = .ok p ∧ tleStr p = lines ∧
+      toRec p = .ok r := by
+  obtain ⟨c1, c2, _, _, _, _, ok1, ok2, _, _, st1, st2, hw⟩ := writeRec_eq r h
+  have hv : checkValidity [(chunks1 r).flatten ++ natStr c1, (chunks2 r).flatten ++ natStr c2] = .ok () := by
+    rw [valid_iff]
+    refine ⟨_, _, [], rfl, ?_, ?_, ?_⟩
+    · have : (chunks1 r).flatten ++ natStr c1 = '1' :: ' ' :: (((chunks1 r).flatten ++ natStr c1).drop 2) := by simp [chunks1]
+      rw [this, lstrip_cons_of_not_ws (by decide)]; rfl
+    · have : (chunks2 r).flatten ++ natStr c2 = '2' :: ' ' :: (((chunks2 r).flatten ++ natStr c2).drop 2) := by simp [chunks2]
+      rw [this, lstrip_cons_of_not_ws (by decide)]; rfl
+    · intro l hl
+      simp at hl
+      rcases hl with rfl | rfl
+      · exact ok1
+      · exact ok2
+  have hp := parse_written r h c1 c2 hv st1 st2
+  have ht := toRec_expected r h ((chunks1 r).flatten ++ natStr c1) ((chunks2 r).flatten ++ natStr c2)
+  rcases h.name with hn | ⟨hne, hns, hn0⟩
+  · -- two-line format
+    have hemp : r.name.isEmpty = true := by rw [hn]; rfl
+    rw [hemp] at hw
+    simp only [if_true] at hw
+    have hpt : parseTle [(chunks1 r).flatten ++ natStr c1, (chunks2 r).flatten ++ natStr c2] = .ok (expected r ((chunks1 r).flatten ++ natStr c1) ((chunks2 r).flatten ++ natStr c2)) := hp
+    have hex : ({ expected r ((chunks1 r).flatten ++ natStr c1) ((chunks2 r).flatten ++ natStr c2) with name := r.name } : Parsed)
+        = (expected r ((chunks1 r).flatten ++ natStr c1) ((chunks2 r).flatten ++ natStr c2)) := by rw [hn]; rfl
+    refine ⟨(expected r ((chunks1 r).flatten ++ natStr c1) ((chunks2 r).flatten ++ natStr c2)), _, hw, ?_, hpt, ?_, ?_⟩
+    · unfold fromOrbit; rw [hw]; exact hpt
+    · rfl
+    · rw [← hex]; exact ht
+  · -- three-line format
+    have hemp : r.name.isEmpty = false := by cases hr : r.name with
+      | nil => exact absurd hr hne
+      | cons _ _ => rfl
+    rw [hemp] at hw
+    simp only [Bool.false_eq_true, if_false] at hw
+    have hname : nameOf r.name = r.name := by unfold nameOf; simp only [hns, hn0]; rfl
+    have hpt : parseTle [r.name, (chunks1 r).flatten ++ natStr c1, (chunks2 r).flatten ++ natStr c2] =
+        .ok { expected r ((chunks1 r).flatten ++ natStr c1) ((chunks2 r).flatten ++ natStr c2) with name := r.name } := by
+      show (parseBody _).map _ = _
+      rw [hp, hname]; rfl
+    refine ⟨_, _, hw, ?_, hpt, ?_, ht⟩
+    · unfold fromOrbit; rw [hw]; exact hpt
+    · show (if r.name.isEmpty then _ else _) = _
+      rw [hemp]; rfl
+
+/-- **parsing a well-formed TLE and writing the resulting orbit back produces the identical lines, name line
+included**: for EVERY text the writer can produce from a record inside the ranges of the format (the canonical
+well-formed TLEs), `Tle.from_orbit(Tle(text).orbit())` succeeds and shows exactly `text`. -/
+theorem write_parse_id (r : Rec) (h : InRange r) (lines : List Str) (hl : writeRec r = .ok lines) :
+    ∃ p, rewrite lines = .ok p ∧ tleStr p = lines := by
+  obtain ⟨p, lines', hw, hf, hp, hs, ht⟩ := parse_write_id r h
+  rw [hl] at hw
+  injection hw with e
+  subst e
+  refine ⟨p, ?_, hs⟩
+  unfold rewrite
+  rw [hp]
+  simp only [bind, Except.bind]
+  rw [ht]
+  exact hf
+
+
+/-- the hypotheses are met by the reference TLE (three-line format, signed drag term, negative ṅ) -/
+example : ∃ p lines, writeRec issRec = .ok lines ∧ fromOrbit issRec = .ok p ∧ parseTle lines = .ok p ∧ tleStr p = lines ∧
+    toRec p = .ok issRec := parse_write_id issRec issRec_inRange
 
 /-! ## Clause 4 — a multi-TLE text yields exactly its valid entries
 
